@@ -57,3 +57,35 @@ Definition merge_agrees (d4 d5 : dump) (dm : list N) : bool :=
       end
   | _, _ => false
   end.
+
+(* The level arrays after the load-time KEEP_STRUCTURE pass.  hwloc_filter_levels_keep_structure does not rebuild the
+   normal levels: it deletes the array of each removed level and shifts the others (memmove), so the final normal levels
+   are the arrays hwloc_connect_levels built BEFORE the pass minus the objects that disappeared, in the same order.
+   That is not always what a fresh hwloc_connect_levels on the final tree would build: when one type sits at
+   different depths in different branches (a Package below a Group in one branch, below the root in another) the pass
+   can bring two levels of that type next to each other without fusing them (both decompositions are well formed).
+   [levels_agree] compares with the fresh computation; when it fails on a load whose pass changed the tree, the driver
+   falls back on this statement.  The special levels are rebuilt by
+   hwloc_connect_special_levels after the pass and stay compared with the model. *)
+Definition gp_of_id (d : dump) (i : N) : option N := match get d i with Some o => o_gp o | None => None end.
+Fixpoint list_optN_eqb (a b : list (option N)) : bool :=
+  match a, b with [], [] => true | x :: a', y :: b' => opt_N_eqb x y && list_optN_eqb a' b' | _, _ => false end.
+Fixpoint list_list_optN_eqb (a b : list (list (option N))) : bool :=
+  match a, b with [], [] => true | x :: a', y :: b' => list_optN_eqb x y && list_list_optN_eqb a' b' | _, _ => false end.
+
+Definition levels_agree_after_merge (d4 d : dump) : bool :=
+  let nn := Z.to_nat (t_depth d) in
+  let gps := map o_gp (t_objs d) in
+  let alive := fun g => existsb (opt_N_eqb g) gps in
+  (* the arrays before the pass: the model of hwloc_connect_levels on the phase-4 tree (the C arrays of that moment
+     are not observable: hwloc__reconnect builds them and runs the pass in one go) *)
+  let before := match tree_of_dump d4 with
+                | Some t4 => match levels_of t4 with Some ls => map (map (fun o => o_gp (odata o))) ls | None => [] end
+                | None => [] end in
+  let expected := filter (fun l => match l with [] => false | _ => true end) (map (filter alive) before) in
+  let got := map (map (gp_of_id d)) (firstn nn (dump_levels d)) in
+  list_list_optN_eqb expected got &&
+  match model_levels d with
+  | Some ls => list_list_N_eqb (skipn (List.length ls - 6) ls) (skipn nn (dump_levels d))
+  | None => false
+  end.
